@@ -3,6 +3,7 @@ package sim
 import (
 	"context"
 	"fmt"
+	"github.com/ipfs/go-graphsync/donotsendfirstblocks"
 	"strings"
 
 	"github.com/ipfs/go-cid"
@@ -175,6 +176,9 @@ func (s *c06) Final(w *World) *Violation {
 	if v == nil {
 		v = s.checkPausedSilence(w)
 	}
+	if v == nil && !s.racing && s.side == "requestor" {
+		v = s.checkResumeSkips(w)
+	}
 	if v != nil {
 		// what raced, for signatures a recorded finding can be keyed on
 		tags := ""
@@ -284,6 +288,72 @@ func (s *c06) checkPausedSilence(w *World) *Violation {
 			} else if pausedFrom >= 0 && s.resumeAt != 0 && wm.Step >= s.resumeAt {
 				pausedFrom = -1
 			}
+		}
+	}
+	return nil
+}
+
+// checkResumeSkips (quiet requestor pause and resume): the re-request tells the responder how many leading blocks
+// not to send; none of them may be transmitted again. The resumed response is what the responder sent after the
+// re-request reached it; an entry within the skipped prefix may share its message with the block only if a later
+// entry of the same message, beyond the prefix, names the same block.
+func (s *c06) checkResumeSkips(w *World) *Violation {
+	if s.resumeDesync() {
+		return nil // (input class of the recorded skip-count finding: the two peers number the links differently)
+	}
+	var skip int64 = -1
+	reqAt, nNew := 0, 0
+	for _, wm := range w.Net.WireFor("A", "B") {
+		if wm.Err != nil {
+			continue
+		}
+		for _, r := range wm.Msg.Requests() {
+			if r.ID() != s.req.ID || r.Type() != graphsync.RequestTypeNew {
+				continue
+			}
+			nNew++
+			if nNew == 2 && wm.Delivered > 0 {
+				reqAt = wm.Delivered
+				skip = 0
+				if data, ok := r.Extension(graphsync.ExtensionsDoNotSendFirstBlocks); ok {
+					if n, err := donotsendfirstblocks.DecodeDoNotSendFirstBlocks(data); err == nil {
+						skip = n
+					}
+				}
+			}
+		}
+	}
+	if skip <= 0 || nNew != 2 {
+		return nil
+	}
+	w.Probe("c06-resumed-response-checked-for-skipped-blocks")
+	idx := int64(0)
+	for _, wm := range w.Net.WireFor("B", "A") {
+		if wm.Err != nil || wm.Step <= reqAt {
+			continue
+		}
+		inMsg := map[cid.Cid]bool{}
+		for _, b := range wm.Msg.Blocks() {
+			inMsg[b.Cid()] = true
+		}
+		for _, r := range wm.Msg.Responses() {
+			if r.RequestID() != s.req.ID {
+				continue
+			}
+			md := ResponseMetadata(r)
+			beyond := map[cid.Cid]bool{}
+			for k, e := range md {
+				if idx+int64(k)+1 > skip {
+					beyond[e.Cid] = true
+				}
+			}
+			for k, e := range md {
+				n := idx + int64(k) + 1
+				if n <= skip && inMsg[e.Cid] && !beyond[e.Cid] {
+					return &Violation{Property: "C06", Rule: "R3", Signature: "skipped-block-sent-after-resume", Detail: fmt.Sprintf("the re-request asked the responder not to send its first %d blocks; block %s (link %d of the resumed response) was transmitted all the same", skip, shortCid(e.Cid), n)}
+				}
+			}
+			idx += int64(len(md))
 		}
 	}
 	return nil
